@@ -1,14 +1,22 @@
 (* C06 -- whatever the parser accepts is well-formed, re-serialisable and stable.
-   Proved: the stable core -- for every message in the parser's normal form, serialising, parsing and serialising
-   again reproduces the bytes exactly, the three serialisers agree, and the validity check accepts only what
-   they can serialise (C01, C02, C19).  NOT proved: that every message the parser returns, on arbitrary
-   accepted input, is in that normal form (an invariant of the whole parse: counts scanned = elements parsed,
-   strings on the heap, has flags 0/1 ...).  That step is decided on the implementation by the check: every
-   accepted input goes through unpack -> check -> size/pack/pack_to_buffer -> unpack -> pack, on protobuf-c
-   and on the model.  Hence the names ending in _partial. *)
+   Proved (Proofs/ParseGood.v on top of ParseSafe / UnpackSafe / MergeSafe, then WfCanon / CheckReqsub / WNormPack):
+   for every generator-producible environment (env_ok), every message type and EVERY byte string shorter than
+   2^28 that the parser accepts, the returned message
+     - is well-formed (wf_msg: what the serialisers may be handed),
+     - is accepted by protobuf_c_message_check (check_msg),
+     - is well-typed (typed_msg) provided every unknown field number it retained is below 2^29 (unk_small) --
+       the parser does accept 5-byte keys carrying larger numbers; those are not valid protobuf field numbers and
+       cannot be written back faithfully (example below);
+   hence it can be serialised (the three serialisers agree, C02), what is written parses again, to the message's
+   normal form, and serialising that reproduces the bytes exactly: parse -> serialise -> parse -> serialise is
+   stable from the first serialisation on.
+   The bound 2^28 is the repeated-count bound of wf_msg.  What is not covered by a theorem: accepted inputs that
+   retain an unknown field number >= 2^29 (decided on the implementation by the check's RT stream: all such
+   inputs it generates are still re-serialised stably by protobuf-c). *)
 From Coq Require Import ZArith List Bool.
 From PBC Require Import Impl.Desc Impl.Mem Impl.Size Impl.Pack Impl.PackBuf Impl.Unpack Impl.Check Impl.WF Impl.Canon Impl.Norm
-     Proofs.MsgRT4 Proofs.SizePackFinal Proofs.CheckSafe Proofs.NormPack.
+     Impl.WNorm Impl.Typed Proofs.MsgRT4 Proofs.SizePackFinal Proofs.CheckSafe Proofs.NormPack Proofs.ParseGood Proofs.Examples.
+From PBC Require Proofs.LeafSafe.
 Import ListNotations.
 Local Open Scope Z_scope.
 
@@ -54,3 +62,30 @@ Theorem C06_stable_when_normal_form : forall (E : env), env_ok E = true -> foral
   unpack_top E (m_desc m) b = Ok (norm_msg E m) /\ pack_msg E (norm_msg E m) = Ok b.
 Proof. exact stable_via_norm. Qed.
 Print Assumptions C06_stable_when_normal_form.
+
+(* ---- every accepted input *)
+Theorem C06_parser_result_is_well_formed_checked_and_typed : forall (E : env) d data m,
+  env_ok E = true -> LeafSafe.bytes data -> Mem.zlen data < 268435456 -> (d < length E)%nat ->
+  unpack_top E d data = Ok m ->
+  wf_msg E m = true /\ check_msg E m = Ok true /\ (unk_small E m = true -> typed_msg E m = true).
+Proof. exact unpack_result_good. Qed.
+Print Assumptions C06_parser_result_is_well_formed_checked_and_typed.
+
+Theorem C06_accepted_input_is_reserialisable_and_stable : forall (E : env) d data m,
+  env_ok E = true -> LeafSafe.bytes data -> Mem.zlen data < 268435456 -> (d < length E)%nat ->
+  unpack_top E d data = Ok m -> unk_small E m = true ->
+  exists b, pack_msg E m = Ok b /\
+            (Z.of_nat (length b) <= 2147483647 ->
+             unpack_top E d b = Ok (wnorm_msg E m) /\ pack_msg E (wnorm_msg E m) = Ok b).
+Proof. exact accepted_input_is_stable. Qed.
+Print Assumptions C06_accepted_input_is_reserialisable_and_stable.
+
+(* both cases occur: an accepted input with all three conclusions; an accepted input with a field number 2^29 in a
+   5-byte key, which is well-formed and check-accepted but not typed *)
+Theorem C06_nonvacuous :
+  (exists m, unpack_top ex_env 0 [8;150;1;26;2;1;2;58;2;8;1] = Ok m /\ wf_msg ex_env m = true /\
+             check_msg ex_env m = Ok true /\ unk_small ex_env m = true /\ typed_msg ex_env m = true) /\
+  (exists m, unpack_top ex_env 0 [8;1;128;128;128;128;16;0] = Ok m /\ wf_msg ex_env m = true /\
+             check_msg ex_env m = Ok true /\ unk_small ex_env m = false /\ typed_msg ex_env m = false).
+Proof. split; eexists; (split; [vm_compute; reflexivity|]); vm_compute; repeat split. Qed.
+Print Assumptions C06_nonvacuous.
